@@ -24,6 +24,9 @@ HAND = [
 ]
 
 
+PASS_CAP = 600       # more passes than any generated definition needs (the evidence records the maximum seen)
+
+
 def run(ctx):
     vlib.build_harness()
     ok, failing = vlib.theorem_gate(ctx, ["C20"])
@@ -33,22 +36,38 @@ def run(ctx):
     l1 = l2 = 0
     samples = []
     budgets = list(range(0, 14)) + [18, 25, 40, 70, 120] if ctx.tier == "quick" else list(range(0, 40)) + [50, 70, 100, 150, 250, 400]
+    count_bad = 0
     for which in ("value_passes", "degree_passes"):
         done = set()
         broken = {}        # definition -> first correspondence failure; the definition stays in the sweep so that the oracles search all budgets
         for k in budgets:
             todo = [i for i in range(len(srcs)) if i not in done]
-            if not todo:
+            if not todo or count_bad >= 10:
                 break
-            reqs = [json.dumps({"src": srcs[i], "curve": "BN254", which: k}) for i in todo]
+            # the other loop gets a budget it never needs, so that a loop which does not reach its fixpoint shows up as a different pass
+            # count (below) and not as a 10 s time box per definition
+            other = "degree_passes" if which == "value_passes" else "value_passes"
+            reqs = [json.dumps({"src": srcs[i], "curve": "BN254", which: k, other: PASS_CAP}) for i in todo]
             obs = [json.loads(r) if r.startswith("{") else {} for r in vlib.run_harness_robust("lift", reqs)]
             idx = [i for i, o in zip(todo, obs) if "ssa" in o]
             ssas = {i: o["ssa"] for i, o in zip(todo, obs) if "ssa" in o}
             for i in todo:
                 if i not in ssas:
                     done.add(i)
-            res = proplib.model_annotations([ssas[i] for i in idx], [P] * len(idx),
-                                            vk=(k if which == "value_passes" else "-"), dk=(k if which == "degree_passes" else "-"))
+            res5 = proplib.model_annotations_counts([ssas[i] for i in idx], [P] * len(idx),
+                                                    vk=(k if which == "value_passes" else PASS_CAP), dk=(k if which == "degree_passes" else PASS_CAP))
+            res = [(a, b, e) for a, b, c, d, e in res5]
+            runs = {i: (o.get("value_passes_run"), o.get("degree_passes_run")) for i, o in zip(todo, obs)}
+            for i, (fv5, fd5, nv, nd, _) in zip(idx, res5):
+                # the number of passes each loop performed: the real loops and the model's (valLoopN / degLoopN)
+                stats["pass counts compared"] += 1
+                if runs[i] != (nv, nd) and runs[i][0] is not None:
+                    l2 += 1
+                    count_bad += 1
+                    done.add(i)      # one report per definition; a loop that does not converge costs PASS_CAP passes per run
+                    ctx.violation("pass-count-differs", {"stage": "L2 number of passes of the propagation loops: real vs Lean model", "source": srcs[i], "loop": which, "k": k,
+                                                         "implementation_passes (value, degree)": list(runs[i]), "model_passes (value, degree)": [nv, nd],
+                                                         "broken": "correspondence Propagate.valLoopN / degLoopN <-> the `while rerun` loops of cfg.rs"}, no_input=True)
             for i, (fv, fd, anns) in zip(idx, res):
                 stats["prefix states compared"] += 1
                 ssa = ssas[i]
@@ -170,13 +189,18 @@ def run(ctx):
                    "template Num2Bits(n) { signal input in; signal output out[n]; for (var i = 0; i < n; i++) { out[i] <== in; } }\n" + s2 + "\n"
             pth = wdp.write("p%d/main.circom" % j, text.encode())
             base.append({"inputs": [pth], "libs": [], "curve": "BN254"})
-        full = vlib.analyze(base)
+        if count_bad:
+            base = []       # the loops do not behave like the model's: this stage would run into the time box for every definition
+        full = vlib.analyze(base) if base else []
         # which constraints mention which assigned signal does not depend on degrees: with complete values and no degree pass every `<--` is
         # a CS0005 finding with all its `constrained here` labels — the reference for those labels
-        labels = [{x for x in claims_of(r)[0] if x[0] == "CS0005-constrained-here"} if "crash" not in r else set() for r in vlib.analyze([dict(b, degree_passes=0) for b in base])]
+        labels = [{x for x in claims_of(r)[0] if x[0] == "CS0005-constrained-here"} if "crash" not in r else set()
+                  for r in (vlib.analyze([dict(b, degree_passes=0, value_passes=PASS_CAP) for b in base]) if base else [])]
         for which in ("value_passes", "degree_passes"):
             for k in (0, 1, 2, 3, 5, 8):
-                cut = vlib.analyze([dict(b, **{which: k}) for b in base])
+                if not base:
+                    break
+                cut = vlib.analyze([dict(b, **{which: k, ("degree_passes" if which == "value_passes" else "value_passes"): PASS_CAP}) for b in base])
                 for s2, f, c, lab in zip(psrcs, full, cut, labels):
                     if "crash" in f or "crash" in c:
                         continue
